@@ -36,6 +36,7 @@ type pbPlan struct {
 	code      codes.Code // status code of the failure
 	detail    int        // 0: none; 1: rate-limited; 2: bad request; 3: authentication failed; 4: device quota
 	stall     bool       // instead of failing, never answer: the client's deadline ends the upload
+	noResp    bool       // accept, but end the RPC with status OK without sending the response message
 	dead      bool       // the upload goes to an endpoint nobody listens on
 }
 
@@ -46,6 +47,10 @@ var pbCodes = []codes.Code{
 
 func (p pbPlan) String() string {
 	if p.failAfter < 0 {
+		if p.noResp {
+			return "accept-without-response"
+		}
+
 		return "accept"
 	}
 	if p.dead {
@@ -123,6 +128,9 @@ func (s *pbServer) SaveDevicesBillingStat(
 				s.mu.Lock()
 				st.accepted = true
 				s.mu.Unlock()
+				if plan.noResp {
+					return nil
+				}
 
 				return srv.SendAndClose(&emptypb.Empty{})
 			}
@@ -266,6 +274,301 @@ func wireCampaign(x *runner, bs *backendpb.BillStat, srv *pbServer) {
 	}
 }
 
+// compareLines sends lines to the model and compares the answers with real;
+// a real answer "*" is not compared (the line only moves the model along).
+func compareLines(x *runner, kind string, lines, real []string) {
+	r := x.r
+	x.m.ResetLog()
+	ans := x.m.Batch(lines)
+	r.ModelOps += len(lines)
+	for i := range lines {
+		if real[i] != "*" && ans[i] != real[i] {
+			r.Disagree(kind, fmt.Sprintf("op %d %q: real %q, model %q [ops: %s]", i, lines[i], real[i], ans[i],
+				strings.Join(lines[:i+1], "; ")), map[string]any{"lines": lines, "real": real, "model": ans})
+
+			return
+		}
+	}
+	r.Traces++
+}
+
+// sendFailCampaign hands batches that contain one record protobuf cannot
+// marshal directly to the real uploader: stream.Send fails at that record.
+// Oracle: Upload returns an error, and no stream is acknowledged.
+func sendFailCampaign(x *runner, bs *backendpb.BillStat, srv *pbServer) {
+	r := x.r
+	rng := x.o.Rand("sendfail")
+	rounds := 12
+	if x.o.Thorough() {
+		rounds = 100
+	}
+	for round := 0; round < rounds && !x.expired(); round++ {
+		k := rng.IntN(9)
+		recs := billstat.Records{}
+		for d := 0; d < k; d++ {
+			recs[devID(d)] = &billstat.Record{Time: time.Unix(0, int64(d)), Country: countries[d%len(countries)], Queries: int32(1 + d)}
+		}
+		bad := &billstat.Record{Time: time.Unix(0, 77), Country: countries[1], Queries: 3}
+		if round%2 == 0 {
+			recs[devID(poisonBase+round)] = bad
+		} else {
+			// a country that is not valid UTF-8
+			bad.Country = geoip.Country("\xc3\x28")
+			recs[devID(k)] = bad
+		}
+		srv.mu.Lock()
+		srv.plan = pbPlan{failAfter: -1}
+		srv.streams = nil
+		srv.mu.Unlock()
+		ctx, cancel := context.WithTimeout(context.Background(), 20*time.Second)
+		err := bs.Upload(ctx, recs)
+		cancel()
+		srv.mu.Lock()
+		nAcc := 0
+		for _, st := range srv.streams {
+			if st.accepted {
+				nAcc++
+			}
+		}
+		srv.mu.Unlock()
+		replay := map[string]any{"campaign": "sendfail", "round": round, "records": k + 1}
+		how := "none"
+		if err != nil {
+			how = "other"
+			if strings.Contains(err.Error(), "uploading device") {
+				how = "send"
+			}
+		}
+		r.Count("sendfail.err." + how)
+		if err == nil {
+			r.Violate("lost-queries", fmt.Sprintf(
+				"sendfail: Upload of %d records returned nil although one of them could not be sent (acknowledged streams: %d)", k+1, nAcc), replay)
+		}
+		if nAcc != 0 && err != nil {
+			r.Violate("double-counted-queries", "sendfail: the backend acknowledged a stream of an upload that failed", replay)
+		}
+		realAns := "err"
+		if err == nil {
+			realAns = fmt.Sprintf("ok %d", k)
+		}
+		compareLines(x, "model-vs-uploader-send", []string{"init 1", fmt.Sprintf("upload %d send %d", k+1, rng.IntN(k+1))}, []string{"ok", realAns})
+		r.Count("case.sendfail")
+		r.Case(fmt.Sprintf("sendfail;%d;%d", k, round%2), true)
+	}
+}
+
+// bumpUploader plays a failing backend; before it fails it adds bump[d] to the
+// count of device d in the batch.  For the recorder that is the state it would
+// be in if bump[d] more queries of d (with the data of its most recent one)
+// had been recorded before the batch was cut — the only affordable way to
+// take the real Record / remergeRecords / recordToProtobuf through counts
+// around 2^31 and 2^32.  during runs while the upload is in flight.
+type bumpUploader struct {
+	bump   map[int]uint32
+	during func()
+	next   billstat.Uploader
+	snap   map[int]rec
+}
+
+func (u *bumpUploader) Upload(ctx context.Context, records billstat.Records) (err error) {
+	if u.next != nil {
+		u.snap = canonRecords(records)
+
+		return u.next.Upload(ctx, records)
+	}
+	if u.during != nil {
+		u.during()
+	}
+	for d, x := range u.bump {
+		if rc := records[devID(d)]; rc != nil {
+			rc.Queries += int32(x)
+		}
+	}
+
+	return errUpload
+}
+
+// hugeCampaign: per-device counts that cross 2^31 (where the int32 field goes
+// negative) and approach 2^32, reached inside Record (Queries++), inside
+// remergeRecords (+=) and on the wire, through the real recorder and the real
+// gRPC uploader.
+func hugeCampaign(x *runner, bs *backendpb.BillStat, srv *pbServer) {
+	r := x.r
+	rng := x.o.Rand("huge")
+	rounds := 24
+	if x.o.Thorough() {
+		rounds = 300
+	}
+	targets := []uint64{1<<31 - 2, 1<<31 - 1, 1 << 31, 1<<31 + 1, 1<<31 + 2, 3 << 30, 1<<32 - 3, 1<<32 - 2, 1<<32 - 1}
+	g := &gen{rng: rng, clock: 1_700_000_000_000_000_000, overlap: new(int)}
+	for round := 0; round < rounds && !x.expired(); round++ {
+		up := &bumpUploader{}
+		rr := billstat.NewRuntimeRecorder(&billstat.RuntimeRecorderConfig{
+			Logger: slogutil.NewDiscardLogger(), ErrColl: quietErrColl(), Uploader: up, Metrics: billstat.EmptyMetrics{},
+		})
+		ctx, cancel := context.WithTimeout(context.Background(), 20*time.Second)
+		// Device 0 reaches total; device 1 stays small.  The total is split
+		// into: a queries before the first cut, bump1 (fast-forward),
+		// f1 queries while the first upload is in flight, a second failed
+		// upload with bump2 and f2 queries in flight, then t queries.
+		total := targets[round%len(targets)]
+		if round >= len(targets) && rng.IntN(3) == 0 {
+			total = 1<<31 - 4 + rng.Uint64N(8)
+		}
+		a, f1, f2, t := uint64(1+rng.IntN(3)), uint64(rng.IntN(4)), uint64(rng.IntN(4)), uint64(rng.IntN(4))
+		rest := total - a - f1 - f2 - t
+		var bump1, bump2 uint64
+		switch round % 3 {
+		case 0:
+			bump1 = rest
+		case 1:
+			bump1 = rest / 2
+			bump2 = rest - bump1
+		default:
+			bump1 = 1<<31 - 1 - a // the batch comes back holding exactly MaxInt32
+			if bump1 > rest {
+				bump1 = rest
+			}
+			bump2 = rest - bump1
+		}
+		var recorded [2]uint64
+		var last [2]meta
+		lines, real := []string{"init 2"}, []string{"ok"}
+		var log []string
+		recN := func(d int, n uint64, cmp bool) {
+			if n == 0 {
+				return
+			}
+			m := g.meta()
+			for i := uint64(0); i < n; i++ {
+				rr.Record(ctx, devID(d), countries[m.C], geoip.ASN(m.A), time.Unix(0, m.T), agd.Protocol(m.P))
+			}
+			recorded[d] += n
+			last[d] = m
+			line := fmt.Sprintf("recn %d %d %d %d %d %d", d, n, m.T, m.C, m.A, m.P)
+			log = append(log, line)
+			ans := "*"
+			if cmp {
+				one := map[int]rec{}
+				if p, ok := canonRecords(verifPending(rr))[d]; ok {
+					one[d] = p
+				}
+				ans = showRecs("pend", one)
+			}
+			lines, real = append(lines, line), append(real, ans)
+		}
+		violate := func(sig, what string) {
+			r.Violate(sig, "huge counts: "+what+" [ops: "+strings.Join(log, "; ")+"]",
+				map[string]any{"campaign": "huge", "round": round, "ops": append([]string{}, log...)})
+		}
+		check := func(where string, delivered [2]uint64) (pend map[int]rec) {
+			pend = canonRecords(verifPending(rr))
+			for d := 0; d < 2; d++ {
+				got, want := delivered[d]+uint64(pend[d].N), recorded[d]
+				if got < want {
+					violate("lost-queries", fmt.Sprintf("%s: device %d: delivered %d + pending %d < recorded %d", where, d, delivered[d], pend[d].N, want))
+				} else if got > want {
+					violate("double-counted-queries", fmt.Sprintf("%s: device %d: delivered %d + pending %d > recorded %d", where, d, delivered[d], pend[d].N, want))
+				}
+				if p, ok := pend[d]; ok && p.M != last[d] {
+					violate("stale-meta-pending", fmt.Sprintf("%s: device %d pending meta %s, most recent query had %s", where, d, p.M, last[d]))
+				}
+			}
+
+			return pend
+		}
+		failing := func(bump uint64, inflight uint64) {
+			// The fast-forwarded queries are, for the model and the oracle,
+			// queries recorded before the cut with the data of the latest one.
+			if bump > 0 {
+				m := last[0]
+				line := fmt.Sprintf("recn 0 %d %d %d %d %d", bump, m.T, m.C, m.A, m.P)
+				log = append(log, line+" (fast-forward)")
+				lines, real = append(lines, line), append(real, "*")
+				recorded[0] += bump
+			}
+			lines, real = append(lines, "begin"), append(real, "*")
+			up.bump = map[int]uint32{0: uint32(bump)}
+			up.during = func() {
+				recN(0, inflight, false)
+				if rng.IntN(2) == 0 {
+					recN(1, 1, false)
+				}
+			}
+			err := rr.Refresh(ctx)
+			log = append(log, "refresh->fail")
+			if err == nil {
+				violate("refresh-nil-on-failure", "Refresh returned nil although Upload failed")
+			}
+			pend := check("after the failed upload", [2]uint64{})
+			lines, real = append(lines, "fail 0"), append(real, showRecs("pend", pend))
+		}
+		recN(0, a, true)
+		if rng.IntN(2) == 0 {
+			recN(1, 1, true)
+		}
+		failing(bump1, f1)
+		if bump2 > 0 || round%2 == 0 {
+			failing(bump2, f2)
+		} else {
+			recN(0, f2, true)
+		}
+		recN(0, t, true)
+		check("before the final upload", [2]uint64{})
+		// The final upload goes through the real gRPC uploader.
+		up.next = bs
+		srv.mu.Lock()
+		srv.plan = pbPlan{failAfter: -1}
+		srv.streams = nil
+		srv.mu.Unlock()
+		err := rr.Refresh(ctx)
+		cancel()
+		log = append(log, "refresh(real uploader, backend=accept)")
+		lines, real = append(lines, "begin"), append(real, showRecs("batch", up.snap))
+		var delivered [2]uint64
+		srv.mu.Lock()
+		var streams []*pbStream
+		for _, st := range srv.streams {
+			// Handlers of earlier, abandoned streams may start late; they
+			// are never acknowledged.
+			if st.accepted {
+				streams = append(streams, st)
+			}
+		}
+		srv.mu.Unlock()
+		if err != nil || len(streams) != 1 {
+			violate("lost-queries", fmt.Sprintf("final upload: err=%v, acknowledged streams=%d", err, len(streams)))
+		} else {
+			for _, msg := range streams[0].got {
+				d, rc := pbToRec(msg)
+				if d < 0 || d > 1 {
+					continue
+				}
+				delivered[d] += uint64(rc.N)
+				if rc.M != last[d] {
+					violate("stale-meta-reported", fmt.Sprintf("device %d reported with meta %s, its most recent query had %s", d, rc.M, last[d]))
+				}
+				b := up.snap[d]
+				lines = append(lines, fmt.Sprintf("wire %d %d %d %d %d %d", d, recorded[d], b.M.T, b.M.C, b.M.A, b.M.P))
+				real = append(real, showWire(msg))
+			}
+			lines, real = append(lines, "ok 0"), append(real, "pend")
+		}
+		check("after the final acknowledged upload", delivered)
+		compareLines(x, "model-vs-recorder-huge", lines, real)
+		r.Count("case.huge")
+		switch {
+		case total < 1<<31:
+			r.Count("huge.total.below_2^31")
+		case total < 1<<31+8:
+			r.Count("huge.total.just_above_2^31")
+		default:
+			r.Count("huge.total.towards_2^32")
+		}
+		r.Case("huge;"+strings.Join(lines, ";"), true)
+	}
+}
+
 func pbCampaign(x *runner) {
 	r := x.r
 	l, err := net.Listen("tcp", "127.0.0.1:0")
@@ -303,6 +606,8 @@ func pbCampaign(x *runner) {
 	hlib.Must(err)
 
 	wireCampaign(x, bs, srv)
+	sendFailCampaign(x, bs, srv)
+	hugeCampaign(x, bs, srv)
 
 	rng := x.o.Rand("grpc")
 	cases := 150
@@ -322,13 +627,45 @@ func pbCampaign(x *runner) {
 			// Batches with many records: limits on the size of a stream.
 			k = []int{65, 101, 129, 257, 1025}[rng.IntN(5)] + rng.IntN(9)
 		}
+		// Every sixth case gets, at some point, a device whose record cannot be
+		// marshalled: from then on every upload fails in stream.Send, at a
+		// position that depends on the map order, after some records have
+		// already gone out.  Nothing may count as delivered and nothing may be
+		// dropped.  The poison device is device k.
+		poison, poisoned := c%6 == 2, false
+		nDev := k
+		if poison {
+			nDev = k + 1
+		}
+		idOf := func(d int) agd.DeviceID {
+			if poison && d == k {
+				return devID(poisonBase + c)
+			}
+
+			return devID(d)
+		}
+		numOf := func(d int) int {
+			if d >= poisonBase {
+				return k
+			}
+
+			return d
+		}
+		renum := func(m map[int]rec) map[int]rec {
+			out := make(map[int]rec, len(m))
+			for d, x := range m {
+				out[numOf(d)] = x
+			}
+
+			return out
+		}
 		tee := &teeUploader{real: bs}
 		rr := billstat.NewRuntimeRecorder(&billstat.RuntimeRecorderConfig{
 			Logger: slogutil.NewDiscardLogger(), ErrColl: quietErrColl(), Uploader: tee, Metrics: billstat.EmptyMetrics{},
 		})
 		ctx, cancel := context.WithTimeout(context.Background(), 20*time.Second)
 		recorded, delivered, last := map[int]int64{}, map[int]int64{}, map[int]meta{}
-		lines, real := []string{fmt.Sprintf("init %d", k)}, []string{"ok"}
+		lines, real := []string{fmt.Sprintf("init %d", nDev)}, []string{"ok"}
 		var log []string
 		nOK, nFail := 0, 0
 		violate := func(sig, what string) {
@@ -347,18 +684,22 @@ func pbCampaign(x *runner) {
 				o := op{K: opRec, D: rng.IntN(k), M: g.meta()}
 				if s < len(prefill) {
 					o.D = prefill[s]
+				} else if poison && (rng.IntN(6) == 0 || (!poisoned && s >= steps/2)) {
+					o.D = k
+					poisoned = true
+					r.Count("grpc.poison_record")
 				} else if c%10 == 3 && rng.IntN(4) == 0 {
 					// Large counts on the wire.
 					o.N = []int{255, 256, 65535, 65536, 70001}[rng.IntN(5)]
 				}
 				for i := 0; i < max(o.N, 1); i++ {
-					rr.Record(ctx, devID(o.D), countries[o.M.C], geoip.ASN(o.M.A), time.Unix(0, o.M.T), agd.Protocol(o.M.P))
+					rr.Record(ctx, idOf(o.D), countries[o.M.C], geoip.ASN(o.M.A), time.Unix(0, o.M.T), agd.Protocol(o.M.P))
 				}
 				recorded[o.D] += int64(max(o.N, 1))
 				last[o.D] = o.M
 				log = append(log, o.String())
 				one := map[int]rec{}
-				if p, ok := canonRecords(verifPending(rr))[o.D]; ok {
+				if p, ok := renum(canonRecords(verifPending(rr)))[o.D]; ok {
 					one[o.D] = p
 				}
 				lines, real = append(lines, o.String()), append(real, showRecs("pend", one))
@@ -385,6 +726,10 @@ func pbCampaign(x *runner) {
 				plan.stall = plan.failAfter >= 0 && stalls > 0 && rng.IntN(12) == 0
 				plan.dead = plan.failAfter >= 0 && !plan.stall && rng.IntN(8) == 0
 			}
+			// The backend may end the RPC with status OK without a response
+			// message: CloseAndRecv then returns io.EOF, which Upload takes as
+			// an acknowledgement.
+			plan.noResp = plan.failAfter < 0 && rng.IntN(5) == 0
 			tee.real = bs
 			if plan.dead {
 				tee.real = bsDead
@@ -403,6 +748,7 @@ func pbCampaign(x *runner) {
 			before := tee.n
 			rerr := rr.Refresh(rctx)
 			rcancel()
+			tee.snap = renum(tee.snap)
 			if tee.n != before+1 {
 				violate("uploader-not-called-once", fmt.Sprintf("Refresh called Upload %d times", tee.n-before))
 
@@ -423,6 +769,7 @@ func pbCampaign(x *runner) {
 				nAccepted++
 				for _, msg := range st.got {
 					d, rc := pbToRec(msg)
+					d = numOf(d)
 					if _, dup := accepted[d]; dup {
 						violate("double-counted-queries", fmt.Sprintf("device %d sent twice in one upload", d))
 					}
@@ -432,6 +779,9 @@ func pbCampaign(x *runner) {
 			// The uploader on its own: result and wire content against the
 			// model of Upload and recordToProtobuf.
 			how := "accept"
+			if plan.noResp {
+				how = "eof"
+			}
 			if rerr != nil {
 				switch msg := rerr.Error(); {
 				case strings.Contains(msg, "opening stream"):
@@ -462,6 +812,7 @@ func pbCampaign(x *runner) {
 						break
 					}
 					d, _ := pbToRec(msg)
+					d = numOf(d)
 					b := tee.snap[d]
 					wireLines = append(wireLines, fmt.Sprintf("wire %d %d %d %d %d %d", d, b.N, b.M.T, b.M.C, b.M.A, b.M.P))
 					wireReal = append(wireReal, showWire(msg))
@@ -494,11 +845,19 @@ func pbCampaign(x *runner) {
 				}
 				lines = append(lines, "fail 0")
 			}
-			pend := canonRecords(verifPending(rr))
+			pend := renum(canonRecords(verifPending(rr)))
 			real = append(real, showRecs("pend", pend))
 			lines, real = append(lines, upLine), append(real, upReal)
 			lines, real = append(lines, wireLines...), append(real, wireReal...)
-			for d := 0; d < k; d++ {
+			if _, inBatch := tee.snap[k]; poison && inBatch {
+				r.Count("grpc.upload.poisoned_batch")
+				if rerr == nil {
+					violate("lost-queries", "Refresh returned nil although one record of the batch could not be sent")
+				} else if how == "send" {
+					r.Count("grpc.upload.err.send_at_poison")
+				}
+			}
+			for d := 0; d < nDev; d++ {
 				got, want := delivered[d]+pend[d].N, recorded[d]
 				if got < want {
 					violate("lost-queries", fmt.Sprintf("device %d: delivered %d + pending %d < recorded %d", d, delivered[d], pend[d].N, want))
@@ -512,6 +871,11 @@ func pbCampaign(x *runner) {
 		}
 		cancel()
 		for d, want := range recorded {
+			if poisoned {
+				// No upload can succeed any more; delivered + pending =
+				// recorded has been checked after every refresh.
+				break
+			}
 			if delivered[d] != want {
 				sig := "lost-queries"
 				if delivered[d] > want {
